@@ -29,6 +29,9 @@ use tokio::task::JoinHandle;
 use vlib::peer::{frame_bytes, Auto, Body, Dirn, Peer, PeerLink, Sasl, WFrame, AMQP_HEADER, SASL_HEADER};
 use vlib::vpipe::Pipe;
 
+#[path = "c15_resume.rs"]
+pub mod resume;
+
 pub const PCH: u16 = 1;
 pub const H_SND: u32 = 0;
 pub const H_RCV: u32 = 1;
@@ -147,6 +150,8 @@ pub enum Bad {
     Item(usize),
     /// bytes pushed verbatim
     Raw { family: String, label: String, bytes: Arc<Vec<u8>> },
+    /// the family "resumption with a lying unsettled map" (c15_resume.rs; a scenario of its own)
+    Resume(resume::RSpec),
 }
 
 #[derive(Debug, Clone)]
@@ -160,12 +165,14 @@ impl Case {
         match &self.bad {
             Bad::Item(i) => catalogue()[*i].name.to_string(),
             Bad::Raw { family, .. } => family.clone(),
+            Bad::Resume(sp) => sp.family(),
         }
     }
     pub fn describe(&self) -> String {
         match &self.bad {
             Bad::Item(i) => format!("role={} state={} item={} ({})", self.role.tag(), self.state.tag(), catalogue()[*i].name, catalogue()[*i].what),
             Bad::Raw { family, label, bytes } => format!("role={} state={} frame[{}] {} ({} bytes)", self.role.tag(), self.state.tag(), family, label, bytes.len()),
+            Bad::Resume(sp) => format!("role={} {}: {}", self.role.tag(), sp.family(), sp.label()),
         }
     }
 }
@@ -1013,6 +1020,10 @@ pub fn set_alloc_hooks(start: fn(), stop: fn() -> (usize, usize)) {
 static ALLOC: std::sync::OnceLock<(fn(), fn() -> (usize, usize))> = std::sync::OnceLock::new();
 
 pub async fn scenario(case: Case) -> Obs {
+    if let Bad::Resume(sp) = &case.bad {
+        let sp = *sp;
+        return resume::scenario(case, sp).await;
+    }
     let mut obs = Obs::default();
     let role = case.role;
     let st = case.state;
@@ -1381,6 +1392,7 @@ pub async fn scenario(case: Case) -> Obs {
             obs.bad_bytes += bytes.len();
             cx.raw(label, bytes);
         }
+        Bad::Resume(_) => unreachable!("handled by resume::scenario"),
     }
     cx.settle(3).await;
     obs.bad_ms = vlib::runner::thread_cpu_ms() - t0;
